@@ -952,14 +952,26 @@ Patch Parser::parse_normal_patch(Patch& patch)
     NewLine newline;
     std::string patch_line;
 
-    while (get_line(patch_line)) {
+    while (true) {
+        auto pos = m_file.tellg();
+        if (!get_line(patch_line))
+            break;
+
         if (m_file.eof() || patch_line.empty())
             break;
 
-        patch.hunks.emplace_back();
+        Hunk hunk;
+        if (!parse_normal_range(hunk, patch_line)) {
+            // The first line must be a command, but anything after the last hunk is not part of this patch.
+            if (patch.hunks.empty())
+                throw std::invalid_argument("Unable to parse normal range command: " + patch_line);
+            --m_line_number;
+            m_file.seekg(pos);
+            break;
+        }
+
+        patch.hunks.push_back(hunk);
         auto& current_hunk = patch.hunks.back();
-        if (!parse_normal_range(current_hunk, patch_line))
-            throw std::invalid_argument("Unable to parse normal range command: " + patch_line);
 
         for (LineNumber i = 0; i < current_hunk.old_file_range.number_of_lines; ++i) {
             if (!get_line(patch_line, &newline))
